@@ -54,7 +54,9 @@ fn c03(r: &mut Rng, i: u64, p: &HashMap<String, String>) -> Vec<Value> {
     let mut f = if r.chance(1, 2) { Feat::all() } else { Feat::notables() };
     f.ids = r.chance(1, 4);
     let mut g = G::new(r, f);
-    let body = g.flow(0);
+    let mut body = g.flow(0);
+    let pressure = r.chance(1, 8);
+    if pressure { let mut cells = vec![]; let t = pressure_table(r, &mut cells); let at = r.below(body.len() as u64 + 1) as usize; body.insert(at, t); }
     let html = doc_html(&body);
     let deco = *r.pick(&["plain", "rich", "trivial", "plain_nd"]);
     let mut ops = opts_c02(r);
@@ -62,7 +64,7 @@ fn c03(r: &mut Rng, i: u64, p: &HashMap<String, String>) -> Vec<Value> {
     if r.chance(1, 8) { ops.push(json!(["nolinkwrap"])); }
     let route = route_for(deco, r);
     let wm = wmax(p, 200);
-    let w = if r.chance(2, 3) { r.range(1, 40.min(wm)) } else { r.range(1, wm) };
+    let w = if pressure { r.range(6, 60) } else if r.chance(2, 3) { r.range(1, 40.min(wm)) } else { r.range(1, wm) };
     vec![json!({"id": id("c03", i), "runs": [run(&html, w, cfg(deco, ops), route)]})]
 }
 
@@ -75,7 +77,7 @@ fn c04(r: &mut Rng, i: u64, _p: &HashMap<String, String>) -> Vec<Value> {
     let mut pieces: Vec<String> = Vec::new();
     if r.chance(1, 4) { pieces.push(" ".into()); }
     for k in 0..nwords {
-        if k > 0 { pieces.push(match r.below(8) { 0 => "  ".into(), 1 => "\n".into(), 2 => "\t ".into(), 3 => " \n  ".into(), _ => " ".into() }); }
+        if k > 0 { pieces.push(match r.below(12) { 0 => "  ".into(), 1 => "\n".into(), 2 => "\t ".into(), 3 => " \n  ".into(), 4 => "\u{3000}".into(), 5 => "\u{2003}".into(), 6 => "\u{a0} ".into(), _ => " ".into() }); }
         let len = if r.chance(1, 8) { r.range(8, 30) } else { r.range(1, 7) };
         let mut wd = String::new();
         let mut wsum = 0;
@@ -412,6 +414,13 @@ fn c07(r: &mut Rng, i: u64, p: &HashMap<String, String>) -> Vec<Value> {
         _ => { let l = g.r.range(1, 6); let c = g.inlines(1); (vec![N::el(&format!("h{}", l), c.clone())], vec![c], l + 1, json!({"kind": format!("h{}", l)})) }
     };
     if body.is_empty() { return vec![]; }
+    let mut body = body;
+    // ids on the block itself and on its items (fragment markers must not disturb prefixes or numbering)
+    if r.chance(1, 3) {
+        let target: &mut N = if kind == "dd" { if let N::E(_, _, ks) = &mut body[0] { &mut ks[0] } else { unreachable!() } } else { &mut body[0] };
+        target.add_attr("id", "_blk".into());
+        if let N::E(_, _, ks) = target { for (k, li) in ks.iter_mut().enumerate() { if matches!(li, N::E(n, _, _) if n == "li") && r.chance(1, 3) { li.add_attr("id", format!("_it{}", k)); } } }
+    }
     let w = r.range(pw + 2, wmax(p, 100));
     let mut runs = vec![run(&doc_html(&body), w, cfg(deco, vec![]), "string")];
     for it in &items { runs.push(run(&doc_html(it), w - pw, cfg(deco, vec![]), "string")); }
@@ -466,6 +475,42 @@ fn regular_table(g: &mut G, nrows: usize, ncols: usize, spans: bool, nest: bool,
         N::el("table", vec![N::el("thead", rows), N::el("tbody", tail)])
     } else { N::el("table", rows) }
 }
+/// A table under width pressure: one column holds a long text, the other columns are covered in one row by
+/// spanning cells with short texts (1 .. 2 x span characters, so also shorter than, equal to and a multiple of the
+/// span) and are (almost) empty in the other rows.  Every non-empty cell is filled with its own character.
+fn pressure_table(r: &mut Rng, cells: &mut Vec<Value>) -> N {
+    let ncols = r.range(3, 7) as usize; let nrows = r.range(2, 3) as usize;
+    let long_col = r.below(ncols as u64) as usize; let row_a = r.below(nrows as u64) as usize;
+    let mut next = 0usize;
+    let mut rows = vec![];
+    for ri in 0..nrows {
+        let mut tds = vec![]; let mut c = 0usize;
+        while c < ncols {
+            let ch = CELLCH[next % CELLCH.len()];
+            let (span, text, count) = if c == long_col {
+                let nw = if ri == row_a || r.chance(1, 3) { r.range(4, 12) } else { r.range(0, 1) };
+                let mut t = String::new(); let mut n = 0usize;
+                for wi in 0..nw { if wi > 0 { t.push(' '); } for _ in 0..r.range(3, 9) { t.push(ch); n += 1; } }
+                (1usize, t, n)
+            } else if ri == row_a {
+                let room = if c < long_col { long_col - c } else { ncols - c };
+                let span = (r.range(1, 4) as usize).min(room).max(1);
+                let len = if r.chance(1, 5) { 0 } else { r.range(1, 2 * span as u64) as usize };
+                (span, std::iter::repeat(ch).take(len).collect::<String>(), len)
+            } else {
+                let len = if r.chance(6, 7) { 0 } else { r.range(1, 2) as usize };
+                (1usize, std::iter::repeat(ch).take(len).collect::<String>(), len)
+            };
+            cells.push(json!({"r": ri + 1, "c0": c + 1, "c1": c + span, "code": ch as u32, "n": count})); next += 1;
+            let mut td = N::el("td", if text.is_empty() { vec![] } else { vec![N::T(text)] });
+            if span > 1 { td.add_attr("colspan", format!("{}", span)); }
+            tds.push(td); c += span;
+        }
+        rows.push(N::el("tr", tds));
+    }
+    N::el("table", rows)
+}
+
 /// C05: one regular table (1..5 x 1..6, tiling colspans, cells empty/short/long/multi-line/wide, nested
 /// regular tables, thead/tbody), plain decorator with borders, widths 1..100.
 fn c05(r: &mut Rng, i: u64, p: &HashMap<String, String>) -> Vec<Value> {
@@ -475,7 +520,8 @@ fn c05(r: &mut Rng, i: u64, p: &HashMap<String, String>) -> Vec<Value> {
     let mut g = G::new(r, Feat::all());
     let mut cells = vec![]; let mut next = 0;
     let t = regular_table(&mut g, nrows, ncols, spans, nest, false, &mut next, &mut cells, true, sparse);
-    let w = if r.chance(1, 2) { r.range(1, 30) } else { r.range(1, wmax(p, 100)) };
+    let (t, w) = if r.chance(1, 5) { cells.clear(); (pressure_table(r, &mut cells), r.range(6, 60)) }
+                 else { (t, if r.chance(1, 2) { r.range(1, 30) } else { r.range(1, wmax(p, 100)) }) };
     vec![json!({"id": id("c05", i), "runs": [run(&doc_html(&[t]), w, cfg("plain", vec![]), "string")]})]
 }
 /// C06: as C05 without nesting, every non-empty cell filled with copies of its own unique character.
@@ -486,7 +532,8 @@ fn c06(r: &mut Rng, i: u64, p: &HashMap<String, String>) -> Vec<Value> {
     let mut g = G::new(r, Feat::all());
     let mut cells = vec![]; let mut next = 0;
     let t = regular_table(&mut g, nrows, ncols, spans, false, true, &mut next, &mut cells, true, sparse);
-    let w = if r.chance(1, 2) { r.range(1, 30) } else { r.range(1, wmax(p, 100)) };
+    let (t, w) = if r.chance(1, 5) { cells.clear(); (pressure_table(r, &mut cells), r.range(6, 60)) }
+                 else { (t, if r.chance(1, 2) { r.range(1, 30) } else { r.range(1, wmax(p, 100)) }) };
     vec![json!({"id": id("c06", i), "meta": {"cells": cells}, "runs": [run(&doc_html(&[t]), w, cfg("plain", vec![]), "string")]})]
 }
 
@@ -641,7 +688,7 @@ fn any_config(r: &mut Rng, bounded_width: bool) -> (Value, &'static str) {
 /// C01: bytes of every kind x widths {0, tiny, ordinary, 10^5, usize::MAX} x the configuration product.
 fn c01(r: &mut Rng, i: u64, p: &HashMap<String, String>) -> Vec<Value> {
     let maxdepth: u64 = p.get("depth").and_then(|s| s.parse().ok()).unwrap_or(3000);
-    let shape = r.below(11);
+    let shape = if p.get("shape").map(|s| s == "deep").unwrap_or(false) { 5 } else { r.below(11) };
     let bytes: Vec<u8> = match shape {
         0 | 1 | 2 | 3 => { let mut f = if r.chance(1, 2) { Feat::all() } else { Feat::notables() }; f.ids = r.chance(1, 3); f.sup = r.chance(1, 3);
                            let mut g = G::new(r, f); let body = g.flow(0);
@@ -649,7 +696,7 @@ fn c01(r: &mut Rng, i: u64, p: &HashMap<String, String>) -> Vec<Value> {
                            let html = format!("{}{}", style, doc_html(&body)); mutate(r, html.as_bytes()) }
         4 => { let n = r.below(400); (0..n).map(|_| if r.chance(1, 3) { *r.pick(b"<>/=\"' &;!-") } else { r.below(256) as u8 }).collect() }
         5 | 6 => { // deep nesting
-            let d = *r.pick(&[100u64, 1000, maxdepth]);
+            let d = if p.get("shape").is_some() { maxdepth } else { *r.pick(&[100u64, 100, 1000, 1000, 1000, maxdepth]) };
             let tag = *r.pick(&["<div>", "<ul><li>", "<table><tr><td>", "<blockquote>", "<b>", "<span>", "<ol><li>", "<dl><dd>", "<em>", "<a href=x>", "<h2>", "<s>", "<sup>", "<pre>", "<p><span>", "<table><tr><td><ul><li>", "<div id=q>", "<span id=q>"]);
             let mut s = String::new(); for _ in 0..d { s.push_str(tag); } s.push_str("deep text here"); if r.chance(1, 2) { s.push_str(&"</div></li></td></blockquote>".repeat(3)); }
             s.into_bytes() }
@@ -675,10 +722,25 @@ fn c01(r: &mut Rng, i: u64, p: &HashMap<String, String>) -> Vec<Value> {
         let unit: &[u8] = if bytes.starts_with(b"<table><tr><td><ul><li>") { b"<table><tr><td><ul><li>" } else { b"<table><tr><td>" };
         let mut v = unit.repeat(100); v.extend_from_slice(b"deep text here"); v } else { bytes };
     let (w, wx): (u64, Option<&str>) = match wsel { 0 => (0, None), 1 => (1, None), 2 => (2, None), 3 => (3, None), 4 => (100000, None), 5 => (0, Some("max")), 6 => (0, Some("max-1")), 99 => (r.range(1, 30), None), _ => (r.range(1, 200), None) };
-    let (cfgv, route) = any_config(r, wx.is_none() && w <= 200);
+    let (mut cfgv, mut route) = any_config(r, wx.is_none() && w <= 200);
+    let deep = (shape == 5 || shape == 6) && bytes.len() >= 3000;
+    if deep && bytes.len() > 20_000 {
+        // beyond ~1000 levels only configurations whose output stays linear in the depth: annotated output carries the
+        // whole annotation vector on every piece of text (quadratic for elements that add text of their own at every
+        // level), and nested tables with overflow allowed draw one ever wider border per level
+        if !["plain", "plain_nd", "trivial"].contains(&cfgv["deco"].as_str().unwrap_or("")) { cfgv["deco"] = json!(*r.pick(&["plain", "plain_nd", "trivial"])); }
+        route = *r.pick(&["string", "staged_string", "staged_clone_string"]);
+        if bytes.starts_with(b"<table") { if let Some(ops) = cfgv["ops"].as_array_mut() { ops.retain(|o| o[0] != "overflow"); } }
+    }
     let mut run = json!({"hx": hex(&bytes), "w": w, "cfg": cfgv, "route": route});
     if let Some(x) = wx { run["wx"] = json!(x); }
-    vec![json!({"id": id("c01", i), "dom": false, "runs": [run]})]
+    let mut case = json!({"id": id("c01", i), "dom": false, "runs": [run]});
+    // deep nesting runs on a thread with a small stack: depth 6000 on 512 KB is the stack budget per level of
+    // depth 10^5 on the 8 MB of a main thread; `stack=main` keeps the real scale (8 MB)
+    if deep {
+        case["stack_kb"] = json!(if p.get("stack").map(|s| s == "main").unwrap_or(false) { 8192 } else { 512 });
+    }
+    vec![case]
 }
 
 /// A table in which most cells (often whole columns) are empty: 1-3 rows x 2-24 columns, short words,
@@ -716,6 +778,7 @@ fn col_decl(c: Value, imp: bool) -> Value { json!({"prop": "color", "val": c, "i
 /// C20: one author rule `sel, sel.. {color: X}` over the agent rule `* {color: B}`.
 fn c20(r: &mut Rng, i: u64, p: &HashMap<String, String>) -> Vec<Value> {
     let mut d = CssDoc::new();
+    d.tables = r.chance(1, 3);
     let body = d.body(r);
     let nsel = if r.chance(1, 5) { 2 } else { 1 };
     let sels: Vec<Value> = (0..nsel).map(|_| selector(r, 4, &d.ids)).collect();
@@ -733,6 +796,7 @@ fn c20(r: &mut Rng, i: u64, p: &HashMap<String, String>) -> Vec<Value> {
 /// {agent, user, author, inline} x {normal, important} x specificity classes x source order.
 fn c19(r: &mut Rng, i: u64, p: &HashMap<String, String>) -> Vec<Value> {
     let mut d = CssDoc::new();
+    d.tables = r.chance(1, 3);
     let mut body = d.body(r);
     let mut k = 0u64;
     let mut mk_sheet = |r: &mut Rng, d: &CssDoc, k: &mut u64| -> Value {
@@ -782,7 +846,7 @@ fn c19(r: &mut Rng, i: u64, p: &HashMap<String, String>) -> Vec<Value> {
 fn c18(r: &mut Rng, i: u64, p: &HashMap<String, String>) -> Vec<Value> {
     // a richer document: block grammar with lists, quotes, headings, links, tables
     let mut f = if r.chance(1, 3) { Feat::all() } else { Feat::notables() };
-    f.ids = false; f.pre = r.chance(1, 3);
+    f.ids = r.chance(1, 3); f.pre = r.chance(1, 3);      // ids: fragment markers of hidden subtrees must vanish too
     let mut g = G::new(r, f);
     let mut body = g.flow(0);
     let mut rules: Vec<Value> = vec![];
@@ -794,7 +858,12 @@ fn c18(r: &mut Rng, i: u64, p: &HashMap<String, String>) -> Vec<Value> {
         if r.chance(1, 9) && !["html", "body", "tbody", "thead"].contains(&name.as_str()) {
             *nh += 1;
             let disp = json!({"prop": "display", "val": "none", "imp": r.chance(1, 4)});
-            match r.below(5) {
+            let has_id = attrs.iter().any(|(k, _)| k == "id");
+            let has_class = attrs.iter().any(|(k, _)| k == "class");
+            let mut pick = r.below(5);
+            if pick == 1 && has_id { pick = 0; }
+            if (pick == 0 || pick == 4) && has_class { pick = 2; }
+            match pick {
                 0 => { attrs.push(("class".into(), format!("h{}", nh))); rules.push(json!({"sels": [[{"comb": "", "name": "", "star": false, "cls": [format!("h{}", nh)], "id": "", "nth": []}]], "decls": [disp]})); }
                 1 => { attrs.push(("id".into(), format!("hid{}", nh))); rules.push(json!({"sels": [[{"comb": "", "name": name.clone(), "star": false, "cls": [], "id": format!("hid{}", nh), "nth": []}]], "decls": [disp]})); }
                 2 => { attrs.push(("style".into(), "display:none".into())); }
@@ -812,8 +881,11 @@ fn c18(r: &mut Rng, i: u64, p: &HashMap<String, String>) -> Vec<Value> {
         false
     }
     fn mark_deleted(n: N) -> N { if let N::E(name, mut attrs, kids) = n { attrs.push(("data-del".into(), "1".into())); N::E(name, attrs, kids) } else { n } }
+    // deleting a node from the DOM leaves its neighbours as they are: a comment stands in for it in the source, so that
+    // the text nodes on either side are not merged into one by the parser
     fn without_deleted(ns: &[N]) -> Vec<N> {
-        ns.iter().filter(|n| !matches!(n, N::E(_, a, _) if a.iter().any(|(k, _)| k == "data-del"))).map(|n| match n {
+        ns.iter().map(|n| match n {
+            N::E(_, a, _) if a.iter().any(|(k, _)| k == "data-del") => N::Raw("<!---->".into()),
             N::E(name, a, kids) => N::E(name.clone(), a.clone(), without_deleted(kids)), o => o.clone() }).collect()
     }
     fn strip_marks(ns: &[N]) -> Vec<N> {
@@ -846,6 +918,7 @@ fn c18(r: &mut Rng, i: u64, p: &HashMap<String, String>) -> Vec<Value> {
 /// and a syntactic variant of it.
 fn c17(r: &mut Rng, i: u64, p: &HashMap<String, String>) -> Vec<Value> {
     let mut d = CssDoc::new();
+    d.tables = r.chance(1, 3);
     let body = d.body(r);
     let w = r.range(5, wmax(p, 80));
     // a valid sheet of colour rules
